@@ -311,6 +311,11 @@ def c04_reason_family(rng, n):
 
 def history_to_case(cid, h, want=("model",), full=True, costs=False):
     rows = h["rows"]
+    if h.get("chunks"):
+        # the same rows given as several files, in order (each file has its own header line)
+        cols = gen.used_cols(rows)
+        files = [["in%d.csv" % i, gen.rows_to_csv(ch, cols)] for i, ch in enumerate(h["chunks"]) if ch]
+        return {"id": cid, "files": files, "init": gen.init_args(h.get("init", {})), "full": full, "costs": costs, "want": list(want)}
     return {"id": cid, "files": [["in.csv", gen.rows_to_csv(rows, gen.used_cols(rows))]],
             "init": gen.init_args(h.get("init", {})), "full": full, "costs": costs,
             "want": list(want)}
